@@ -437,6 +437,7 @@ HRet(e) ==
 
 HHint(e) ==
   IF \E id \in DOMAIN q : TcpQueued(id) THEN Skip      \* deadline of a not yet transmitted TCP query is not modelled
+  ELSE IF e.nq > Cardinality(DOMAIN q) THEN Skip       \* a request queued on a TCP connection that has not transmitted anything yet
   ELSE IF Inflight # {} /\ e.us < 0 THEN Rej("c07.no_hint_while_queries_outstanding")
   ELSE IF cfg.maxtimeout > 0 /\ \E id \in Inflight : q[id].dhi < Sat /\ e.us > Max(q[id].sentAt + cfg.maxtimeout - now, 0) * 1000
        THEN Rej("c06.attempt_waits_longer_than_configured_maximum")
